@@ -161,9 +161,26 @@ func And(xs ...*Term) *Term {
 		seen[x.ID] = true
 		out = append(out, x)
 	}
+	var pinned map[int]uint64 // variable id -> the constant it is equated with
 	for _, x := range out {
 		if x.Op == OpNot && seen[x.Args[0].ID] {
 			return False
+		}
+		// x = c1 and x = c2 with c1 != c2 is false (selector equalities are by far the most common guards)
+		if x.Op == OpEq && x.Args[0].Width > 0 {
+			a, b := x.Args[0], x.Args[1]
+			if b.Op == OpVar && a.IsConst() {
+				a, b = b, a
+			}
+			if a.Op == OpVar && b.IsConst() {
+				if pinned == nil {
+					pinned = map[int]uint64{}
+				}
+				if old, ok := pinned[a.ID]; ok && old != b.Val {
+					return False
+				}
+				pinned[a.ID] = b.Val
+			}
 		}
 	}
 	switch len(out) {
